@@ -42,7 +42,7 @@ RULE = ("cases = (filter, subject kind, elements, positional/keyword arguments);
         "'SS') - there a result matching any of lower/casefold/upper-then-lower is accepted; "
         "every other input is strict (all-lower-case keys must compare as in plain Python) and a "
         "result that matches another caseless form is reported as "
-        "case-insensitive:keys-compared-by-<form>-not-lower-cased. Each case runs on "
+        "case-insensitive:keys-not-compared-lower-cased (the message names the form). Each case runs on "
         "list/tuple/generator/iter-only/str/dict subjects through call_filter and a template "
         "(|list, for-loop or direct form; arguments as variables or inline literals) in a sync "
         "and an async environment (async generator / async-iterable subjects for the 12 filters "
@@ -104,13 +104,13 @@ FLOORS = {
                               "alias_checks": 550000, "alias_result_pokes": 350000,
                               "alias_list_subject_list_result": 90000,
                               "filters_exercised_min_cases": 6000,
-                              "fold_special_inputs": 4000, "fold_special_case_sensitive": 1500,
-                              "fold_ambiguous_inputs": 300, "fold_strict_discriminating": 1500,
-                              "fold_strict_attribute": 700, "fold_strict_lazy_subject": 500,
-                              "fold_strict_random": 1000,
-                              "fold_strict:unique": 150, "fold_strict:sort": 150,
-                              "fold_strict:groupby": 150, "fold_strict:min": 150,
-                              "fold_strict:max": 150, "fold_strict:dictsort": 150}},
+                              "fold_special_inputs": 9000, "fold_special_case_sensitive": 4000,
+                              "fold_ambiguous_inputs": 600, "fold_strict_discriminating": 2500,
+                              "fold_strict_attribute": 1400, "fold_strict_lazy_subject": 1100,
+                              "fold_strict_random": 2500,
+                              "fold_strict:unique": 400, "fold_strict:sort": 400,
+                              "fold_strict:groupby": 400, "fold_strict:min": 400,
+                              "fold_strict:max": 400, "fold_strict:dictsort": 400}},
 }
 N_RANDOM = {"quick": 2000, "thorough": 80000}
 
